@@ -1,9 +1,9 @@
 SPECIFICATION Spec
 CONSTANTS
-  G = 2
+  G = 3
   MaxRings = 2
   Drawings = 1
-  Kinds = {"rect", "tri", "dia", "rectD"}
+  Kinds = {"rect", "dia"}
   MutSeq <- MutThmQ
   Modes = {"any"}
   MaxSegs = 26
